@@ -34,6 +34,7 @@ type c06Prog struct {
 	PolArg  int          `json:"polarg"`
 	Deny    bool         `json:"denyAppend"` // also try an append the policy denies
 	Conc    int          `json:"conc"`       // LogOptions.Concurrency of the destination (0 = default)
+	InPlace bool         `json:"inPlace"`    // corrupt the source's entry objects themselves (they were verified by an earlier merge) instead of copies
 }
 
 var c06Kinds = []string{"sig-removed", "key-removed", "sig-other-entry", "sig-flip", "payload-changed", "foreign-key", "foreign-logid", "next-changed", "time-changed"}
@@ -52,6 +53,7 @@ func genC06(t *rapid.T) c06Prog {
 	p.PolArg = rapid.IntRange(0, 1<<12).Draw(t, "polarg")
 	p.Deny = rapid.Bool().Draw(t, "denyAppend")
 	p.Conc = rapid.SampledFrom([]int{0, 0, 1, 2, 3, 4, 5, 7}).Draw(t, "conc")
+	p.InPlace = rapid.IntRange(0, 2).Draw(t, "inPlace") == 0
 	return p
 }
 
@@ -181,6 +183,9 @@ func runC06(tb ev.TB, p c06Prog) ev.Result {
 			continue
 		}
 		c := e.Copy()
+		if p.InPlace && !dstModel.Has(h) {
+			c = e // the very object the fresh replica verified a moment ago (only entries the destination does not share)
+		}
 		switch kind {
 		case "sig-removed":
 			c.SetSig(nil)
